@@ -95,7 +95,13 @@ class Program:
     def callee_npath(self, c):
         if c.get("indirect"):
             return "<indirect>"
-        return norm_path(c["path"])
+        p = norm_path(c["path"])
+        if p in STD_ALIASES:
+            return STD_ALIASES[p]
+        rp = c.get("res_path")
+        if rp and norm_path(rp) in STD_ALIASES:
+            return STD_ALIASES[norm_path(rp)]
+        return p
 
     def classify(self, fn, bb):
         """Return dict describing the terminator of fn.blocks[bb] if it is a call or drop."""
@@ -380,6 +386,20 @@ def fmt(e, depth=0):
 
 
 # --------------------------------------------------------------------------------------------
+
+
+# method spellings of the raw-pointer primitives: the same operation as the free function the rules name
+STD_ALIASES = {
+    "std::ptr::const_ptr::<impl *const T>::read": "std::ptr::read",
+    "std::ptr::mut_ptr::<impl *mut T>::read": "std::ptr::read",
+    "std::ptr::NonNull::<T>::read": "std::ptr::read",
+    "std::ptr::mut_ptr::<impl *mut T>::write": "std::ptr::write",
+    "std::ptr::NonNull::<T>::write": "std::ptr::write",
+    "std::ptr::mut_ptr::<impl *mut T>::drop_in_place": "std::ptr::drop_in_place",
+    "std::ptr::NonNull::<T>::drop_in_place": "std::ptr::drop_in_place",
+    "<std::ptr::NonNull<T> as std::cmp::PartialEq>::eq": "std::ptr::eq",
+    "std::ptr::addr_eq": "std::ptr::eq",
+}
 
 
 class Ctx:
